@@ -313,7 +313,8 @@ impl Asm<'_> {
 					attr(&mut attrs, &mut self.pool, "LineNumberTable", &body);
 				}
 				2 | 3 => {
-					let cnt = self.r.range(1, 2);
+					// now and then a table without entries (the tree then holds `Some(vec![])` and cannot tell which table it was)
+					let cnt = if self.r.chance(1, 6) { self.hit("code:local-variable-table-without-entries"); 0 } else { self.r.range(1, 2) };
 					let mut body = Vec::new();
 					p2(&mut body, cnt as u16);
 					for i in 0..cnt {
